@@ -52,7 +52,7 @@ RULE = (
 )
 SCHEDULES = [(1, 0), (2, 0), (1, 1), (9, 7)]
 BOUNDS = {
-    "quick": {"seeds": [0, 1, 12], "schedules": SCHEDULES, "logging": "default (silenced) for every schedule; the first schedule once more with the package logger at DEBUG", "inputs_per_operation": 2, "large_plate_input": "generators, smoothers, hold-outs and prepare_retrospective_simulation also on a 22-well screen with plates of 8, 8 and 6 wells", "cross_process": "12 library operations x 2 inputs x 2 seeds in 2 interpreters with different PYTHONHASHSEED"},
+    "quick": {"seeds": [0, 1, 12], "schedules": SCHEDULES, "logging": "default (silenced) for every schedule; the first schedule once more with the package logger at DEBUG", "generator_provenance": "the first schedule once more with every seeded generator replaced by one in the same state that was not built from the seed", "inputs_per_operation": 2, "large_plate_input": "generators, smoothers, hold-outs and prepare_retrospective_simulation also on a 22-well screen with plates of 8, 8 and 6 wells", "cross_process": "12 library operations x 2 inputs x 2 seeds in 2 interpreters with different PYTHONHASHSEED"},
     "thorough": {"seeds": [0, 1, 2, 12, 2**32 - 1], "schedules": SCHEDULES + [(123456, 3), (0, 100)], "logging": "as quick", "inputs_per_operation": 3},
 }
 ASSUMPTIONS = [
@@ -86,9 +86,13 @@ class _SpyGenerator:
 
 
 class Tripwire:
-    def __init__(self):
+    def __init__(self, clone=False):
         self.hits = []
         self._saved = []
+        # clone: every SEEDED default_rng(...) hands out a generator of the same kind in the same STATE that was not built from
+        # that seed (state restored from a checkpoint / sent to a worker): "identically seeded" means the same stream, whatever
+        # the provenance of the object
+        self.clone = clone
 
     def _site(self):
         return self._site_from(sys._getframe(2))
@@ -133,6 +137,10 @@ class Tripwire:
                 site = trip._site_from(sys._getframe(1))
                 if site is not None:
                     return _SpyGenerator(g, site, trip)
+            elif trip.clone:
+                g2 = np.random.Generator(type(g.bit_generator)())
+                g2.bit_generator.state = g.bit_generator.state
+                return g2
             return g
 
         self._saved.append((np.random, "default_rng", real_default_rng))
@@ -752,11 +760,11 @@ def plan(tier, seed):
     return items
 
 
-def one_run(fn, seed, variant, gseed, k, tmp, debug=False):
+def one_run(fn, seed, variant, gseed, k, tmp, debug=False, clone=False):
     """Returns (output, hits, state_changed, exception)."""
     if debug:
         with package_logger_at_debug():
-            return one_run(fn, seed, variant, gseed, k, tmp)
+            return one_run(fn, seed, variant, gseed, k, tmp, clone=clone)
     np.random.seed(gseed)
     pyrandom.seed(gseed)
     for _ in range(k):
@@ -766,7 +774,7 @@ def one_run(fn, seed, variant, gseed, k, tmp, debug=False):
     st_py = pyrandom.getstate()
     exc = None
     out = None
-    with Tripwire() as tw:
+    with Tripwire(clone=clone) as tw:
         try:
             out = fn(seed, variant, tmp)
         except Exception as e:  # noqa: BLE001
@@ -793,11 +801,14 @@ def run_item(item, col, tier):
             refused = False
             # the last run repeats the first schedule with the package logger at DEBUG (what --verbose sets): logging
             # configuration is not an input of the operation
-            for gseed, k, dbg in [(g_, k_, False) for g_, k_ in b["schedules"]] + [(b["schedules"][0][0], b["schedules"][0][1], True)]:
-                out, hits, changed, exc = one_run(fn, seed, item["variant"], gseed, k, tmp, debug=dbg)
+            # ... and once more with generators that are in the seeded state without having been built from the seed ("cloned")
+            for gseed, k, dbg in [(g_, k_, False) for g_, k_ in b["schedules"]] + [(b["schedules"][0][0], b["schedules"][0][1], True), (b["schedules"][0][0], b["schedules"][0][1], "cloned")]:
+                cloned = dbg == "cloned"
+                dbg = dbg is True
+                out, hits, changed, exc = one_run(fn, seed, item["variant"], gseed, k, tmp, debug=dbg, clone=cloned)
                 col.evaluations += 1
                 col.transitions += 1
-                case = {"op": item["op"], "variant": item["variant"], "seed": seed, "schedule": [gseed, k], "debug_logging": dbg}
+                case = {"op": item["op"], "variant": item["variant"], "seed": seed, "schedule": [gseed, k], "debug_logging": dbg, "cloned_generators": cloned}
                 for site, label in sorted(set(hits)):
                     col.violation(f"C18|callsite|{site}|{label}",
                                   f"{item['op']}: batchie code at {site} calls the process-global {label}", case)
@@ -811,7 +822,7 @@ def run_item(item, col, tier):
                     col.refused += 1
                     col.outcome("refused", item["op"], type(exc).__name__)
                     continue
-                outs.append(((gseed, k) if not dbg else (gseed, k, "logger at DEBUG"), digest(out)))
+                outs.append(((gseed, k) if not (dbg or cloned) else (gseed, k, "logger at DEBUG" if dbg else "generators in the seeded state, not built from the seed"), digest(out)))
             if refused or not outs:
                 continue
             if item["op"].startswith("cli:"):
@@ -872,8 +883,10 @@ def replay(case, col):
     tmp = env.scratch_dir("c18r")
     try:
         g, k = case["schedule"][0], case["schedule"][1]
-        dbg = len(case["schedule"]) > 2 or bool(case.get("debug_logging"))
-        out, hits, changed, exc = one_run(fn, case["seed"], case["variant"], g, k, tmp, debug=dbg)
+        third = case["schedule"][2] if len(case["schedule"]) > 2 else ""
+        cloned = bool(case.get("cloned_generators")) or "not built from the seed" in str(third)
+        dbg = (len(case["schedule"]) > 2 and not cloned) or bool(case.get("debug_logging"))
+        out, hits, changed, exc = one_run(fn, case["seed"], case["variant"], g, k, tmp, debug=dbg, clone=cloned)
         col.evaluations += 1
         if exc is not None:
             print("operation raised:", short_exc(exc))
